@@ -152,8 +152,15 @@ func decide(addr string) error {
 }
 
 func (b *Backend) NewSession(c *smtp.Conn) (smtp.Session, error) {
-	_, isTLS := c.TLSConnectionState()
+	tlsState, isTLS := c.TLSConnectionState()
 	e := &Event{Kind: "NewSession", Helo: c.Hostname(), TLS: isTLS}
+	if isTLS && (!tlsState.HandshakeComplete || tlsState.Version == 0 || tlsState.CipherSuite == 0) {
+		// a backend that looks INTO the state (protocol version, cipher suite, client certificates) must find the
+		// state of the completed handshake
+		b.mu.Lock()
+		b.Anomalies = append(b.Anomalies, fmt.Sprintf("NewSession(%s) was shown a TLS state whose handshake is not complete (HandshakeComplete=%t version=%#x cipher=%#x)", c.Hostname(), tlsState.HandshakeComplete, tlsState.Version, tlsState.CipherSuite))
+		b.mu.Unlock()
+	}
 	if b.Probe != nil {
 		b.Probe(c)
 	}
@@ -210,6 +217,7 @@ type sess struct {
 	epoch      int
 	inData     int
 	panicReset bool // the next Reset panics (armed by a sender "okpanicreset...")
+	loggedOut  bool
 }
 
 func errStr(err error) string {
@@ -249,7 +257,18 @@ func RcptOptsString(o *smtp.RcptOptions) string {
 	return fmt.Sprintf("Notify=%s ORcptType=%q ORcpt=%q RRVS=%s", n, o.OriginalRecipientType, o.OriginalRecipient, t)
 }
 
+// afterLogout records a callback that begins on a session whose Logout has already been called: no backend should ever
+// see that (unless Server.Close is racing with the command loop, which the scenario then judges itself).
+func (s *sess) afterLogout(kind string) {
+	s.b.mu.Lock()
+	if s.loggedOut && !s.b.ConcurrentClose {
+		s.b.Anomalies = append(s.b.Anomalies, fmt.Sprintf("callback %s began on session #%d after its Logout", kind, s.id))
+	}
+	s.b.mu.Unlock()
+}
+
 func (s *sess) Mail(from string, opts *smtp.MailOptions) (err error) {
+	s.afterLogout("Mail")
 	e := s.b.add(&Event{Sess: s.id, Kind: "Mail", Arg: from, Opts: MailOptsString(opts)})
 	defer func() { e.Ret = errStr(err); e.Ended = true }()
 	s.b.gate("cb:Mail")
@@ -270,6 +289,7 @@ func (s *sess) Mail(from string, opts *smtp.MailOptions) (err error) {
 }
 
 func (s *sess) Rcpt(to string, opts *smtp.RcptOptions) (err error) {
+	s.afterLogout("Rcpt")
 	e := s.b.add(&Event{Sess: s.id, Kind: "Rcpt", Arg: to, Opts: RcptOptsString(opts)})
 	defer func() { e.Ret = errStr(err); e.Ended = true }()
 	s.b.gate("cb:Rcpt")
@@ -314,6 +334,9 @@ func (s *sess) Reset() {
 func (s *sess) Logout() error {
 	s.b.gate("cb:Logout")
 	s.noteOverlap("Logout")
+	s.b.mu.Lock()
+	s.loggedOut = true
+	s.b.mu.Unlock()
 	s.b.add(&Event{Sess: s.id, Kind: "Logout", Ended: true})
 	return s.b.LogoutErr
 }
@@ -333,6 +356,7 @@ func (s *sess) consume(kind string, r io.Reader, status smtp.StatusCollector) er
 }
 
 func (s *sess) consume0(kind string, r io.Reader, status smtp.StatusCollector) (err error) {
+	s.afterLogout(kind)
 	b := s.b
 	b.mu.Lock()
 	idx := b.nmsg
@@ -557,6 +581,7 @@ func (s *sessA) AuthMechanisms() []string {
 }
 
 func (s *sessA) Auth(mech string) (sasl.Server, error) {
+	s.afterLogout("Auth")
 	e := s.b.add(&Event{Sess: s.id, Kind: "Auth", Arg: mech, Ended: true})
 	if s.b.NewSASL == nil {
 		e.Ret = "unknown"
